@@ -284,6 +284,45 @@ pub fn run(rep: &mut Report, thorough: bool) {
             let (k, s, t) = &pairs[d[0] as usize];
             elicit(*k, &dmacs[d[1] as usize], s, t)
         });
+        // IPv6 extension headers (hop-by-hop 0, routing 43, fragment 44, AH 51, destination options
+        // 60, mobility 135) in front of an answerable message, well-formed (next header + length
+        // octet + padding), one and two in a row: the packet's next protocol is outside
+        // {ICMPv6, TCP, UDP}
+        {
+            let exts = [0u8, 43, 44, 51, 60, 135];
+            let f = flow(true, 40000, 3478);
+            let inner: Vec<(u8, Vec<u8>)> = vec![
+                (P_ICMP6, icmp6(&f.cip, &f.sip, 128, 0, &[0x12, 0x34, 0, 1, b'e', b'x', b't', b'h'])),
+                (P_TCP, TcpSeg::new(f.cport, f.sport, 77, 0, F_SYN, b"").bytes(&f.cip, &f.sip)),
+                (P_UDP, udp(&f.cip, &f.sip, f.cport, f.sport, &stun_magic(&[], &ID12))),
+            ];
+            let dims = [exts.len() as u64, exts.len() as u64 + 1, inner.len() as u64, 2];
+            sweep_frames(rep, cfg, &format!("ipv6-extension-headers-{}", tag), "6 extension header types x {alone, followed by a second one of 6 types} x {echo, SYN, STUN datagram} behind them x header length {8, 16} bytes", product(&dims), |i| {
+                let d = unrank(i, &dims);
+                let (proto, l4) = &inner[d[2] as usize];
+                let hl = d[3] as usize; // length octet: (hl + 1) * 8 bytes
+                let mk = |next: u8| -> Vec<u8> {
+                    let mut h = vec![0u8; (hl + 1) * 8];
+                    h[0] = next;
+                    h[1] = hl as u8;
+                    // PadN options fill the rest
+                    if h.len() > 2 {
+                        h[2] = 1;
+                        h[3] = (h.len() - 4) as u8;
+                    }
+                    h
+                };
+                let mut payload: Vec<u8> = Vec::new();
+                if d[1] == 0 {
+                    payload.extend(mk(*proto));
+                } else {
+                    payload.extend(mk(exts[d[1] as usize - 1]));
+                    payload.extend(mk(*proto));
+                }
+                payload.extend_from_slice(l4);
+                f.ip_frame(exts[d[0] as usize], &payload)
+            });
+        }
         // ARP requests with other hardware types and declared address lengths, whose fixed target
         // field (bytes 24..28) holds a FOREIGN address while every other 4-byte window behind it
         // (the frame's padding) holds a handled one, and conversely: whatever field the responder
